@@ -594,10 +594,12 @@ func report(s *Session, prop, tier string, seed int, vcs []*FuncVC, filter func(
 				discharged++
 				continue
 			}
-			if o.Result.Status == "error" {
+			if o.Result.Status == "error" && !(strings.Contains(o.Result.Output, "unknown constant") || strings.Contains(o.Result.Output, "is not declared")) {
 				engineErrs = append(engineErrs, fmt.Sprintf("%s: solver error: %s", o.Name, o.Result.Output))
 				continue
 			}
+			// (a clause that mentions a program variable which no longer exists cannot be discharged:
+			// the contract no longer fits the code; reported like any other undischarged obligation)
 			// failed obligation
 			isKnown := false
 			for _, kf := range known {
